@@ -294,6 +294,98 @@ def check_iter(c, rec):
                 raise Violation("interleaved_iteration", f"iterator {j} yields beyond the end; schedule={c['sched']}")
 
 
+# ---- enumerated grid of dim arguments (exhaustive in the thorough tier) --------------------------------
+def _all_shapes(max_rank, sides):
+    import itertools
+    out = [[]]
+    for r in range(1, max_rank + 1):
+        out += [list(t) for t in itertools.product(sides, repeat=r)]
+    return out
+
+
+def _vals(shape, salt):
+    n = int(np.prod(shape)) if shape else 1
+    perm = [((i * 7 + salt * 3) % max(n, 1)) for i in range(n)]
+    if len(set(perm)) < n:
+        perm = list(range(n))
+    return [(v - n // 2) / 8.0 for v in perm]          # pairwise distinct -> no ties for max/min
+
+
+def enum_dims(tier, shard, nshards):
+    import itertools
+    shapes = _all_shapes(4 if tier == "thorough" else 3, (1, 2, 3))
+    i = 0
+
+    def emit(opname, shape, args, extra_xs=()):
+        nonlocal i
+        i += 1
+        if i % nshards != shard:
+            return None
+        xs = [ops.X(shape, _vals(shape, i))] + list(extra_xs)
+        return {"op": opname, "xs": xs, "args": args, "dtype": "float64" if i % 3 else "float32", "rg": [False] * len(xs),
+                "g": [0.0], "gdtype": "same", "wrap": False, "layout": "C", "scale": 1.0, "oi": i}
+
+    for shape in shapes:
+        nd = len(shape)
+        dims = [None] + list(range(-nd, nd))
+        tuples = []
+        for k in range(1, nd + 1):
+            for comb in itertools.combinations(range(nd), k):
+                tuples.append({"tuple": list(comb)})
+                tuples.append({"tuple": [c - nd for c in comb][::-1]})
+                if k >= 2:
+                    tuples.append({"tuple": [comb[0] - nd] + list(comb[1:])})
+        for keep in (False, True):
+            for d in dims + tuples:
+                for name in ("sum", "mean"):
+                    c = emit(name, shape, {"dim": d, "keepdims": keep, "form": "method" if keep else "fn"})
+                    if c:
+                        yield c
+            for d in dims:
+                for name in ("max", "min"):
+                    c = emit(name, shape, {"dim": d, "keepdims": keep, "form": "fn" if keep else "method"})
+                    if c:
+                        yield c
+        for d in dims + tuples:
+            c = emit("squeeze", shape, {"dim": d, "form": "method"})
+            if c:
+                yield c
+        for d in range(-nd - 1, nd + 1):
+            c = emit("unsqueeze", shape, {"dim": d, "form": "fn"})
+            if c:
+                yield c
+            c = emit("stack", shape, {"dim": d, "use": [0, 1, 0], "seq": "list"}, [ops.X(shape, _vals(shape, i + 1))])
+            if c:
+                yield c
+        for a in range(-nd, nd):
+            c = emit("unbind", shape, {"dim": a}) if nd else None
+            if c:
+                yield c
+            c = emit("concat", shape, {"dim": a, "use": [0, 1], "seq": "tuple"}, [ops.X(shape, _vals(shape, i + 2))]) if nd else None
+            if c:
+                yield c
+            for b in range(-nd, nd):
+                for name, args in (("transpose", {"dim0": a, "dim1": b, "form": "method"}),
+                                   ("movedim", {"source": a, "destination": b, "form": "fn"})):
+                    c = emit(name, shape, args)
+                    if c:
+                        yield c
+                if a % nd <= b % nd:
+                    c = emit("flatten", shape, {"start": a, "end": b, "form": "method"})
+                    if c:
+                        yield c
+            n = shape[a % nd] if nd else 0
+            for size in range(1, n + 1):
+                for step in range(1, n + 2):
+                    c = emit("unfold_dim", shape, {"dimension": a, "size": size, "step": step, "form": "method"})
+                    if c:
+                        yield c
+
+
+def check_dim_grid(case, rec):
+    make_check(ops.BY_NAME[case["op"]])(case, rec)
+
+
 def subchecks():
     subs = []
     for op in ops.OPS:
@@ -301,4 +393,5 @@ def subchecks():
                              quick=500, thorough=4000, shards_quick=2, shards_thorough=4))
     subs.append(SubCheck("constructors", check_ctor, ctor_cases, quick=600, thorough=8000, shards_thorough=2))
     subs.append(SubCheck("iteration", check_iter, iter_cases, quick=300, thorough=5000, shards_thorough=2))
+    subs.append(SubCheck("dim_grid", check_dim_grid, None, enum=enum_dims, exhaustive=True, shards_quick=8, shards_thorough=16))
     return subs
